@@ -2408,7 +2408,32 @@ func TabUTF8(p *load.Program) *report.RuleResult {
 // annotations aside.
 func OrdLstClean(p *load.Program) *report.RuleResult {
 	r := newResult("ORD-LSTCLEAN", "every call by which a Writer implementation has a symbol table written through the writer itself (WriteTo(w), directly or through an unexported helper) is reached only after (*writer).clear(): the table is emitted with the writer's own FieldName/Annotation/Begin* methods, so a field name or annotation still pending at that moment would be attached to the $ion_symbol_table struct, which a reader then no longer recognises as a symbol table", 2)
-	isClear := func(in ssa.Instruction) bool {
+	mustMemo := map[*ssa.Function]int{}
+	var isClear func(in ssa.Instruction) bool
+	var mustClear func(f *ssa.Function) bool
+	mustClear = func(f *ssa.Function) bool {
+		switch mustMemo[f] {
+		case 1:
+			return true
+		case 2, 3:
+			return false
+		}
+		mustMemo[f] = 3
+		res := len(f.Blocks) > 0
+		if res {
+			for _, ret := range returns(f) {
+				if ssau.ReachesAvoiding(f, ret, isClear, nil) {
+					res = false
+				}
+			}
+		}
+		mustMemo[f] = 2
+		if res {
+			mustMemo[f] = 1
+		}
+		return res
+	}
+	isClear = func(in ssa.Instruction) bool {
 		if _, deferred := in.(*ssa.Defer); deferred {
 			return false // runs when the function returns, not here
 		}
@@ -2417,7 +2442,15 @@ func OrdLstClean(p *load.Program) *report.RuleResult {
 			return false
 		}
 		f := load.Unwrap(c.Common().StaticCallee())
-		return f != nil && f.Name() == "clear" && recvTypeName(f) == "writer"
+		if f == nil {
+			return false
+		}
+		if f.Name() == "clear" && recvTypeName(f) == "writer" {
+			return true
+		}
+		// a helper that takes the pending name and annotations and always clears them (takePending)
+		rt := recvTypeName(f)
+		return (rt == "writer" || rt == "textWriter" || rt == "binaryWriter") && p.InModule(f) && mustClear(f)
 	}
 	writerTypes := map[string]bool{}
 	for _, T := range implementers(p, p.Ion, "Writer") {
